@@ -44,7 +44,9 @@ def _free_port():
     raise Inconclusive('no free loopback port in this process\'s window')
 
 
-def run_real_session(scenario, timeout_s=60.0):
+def run_real_session(scenario, timeout_s=60.0, client_fns=None):
+    """client_fns: None = four reference clients; else a function (ip, port) -> four callables, each running one whole
+    client (e.g. the bundled Client) - it is retried while the table manager's port still refuses connections."""
     from bridge_env.network_bridge import server as SV
     workdir = os.path.join(VERIF_ROOT, '.work', 'sessions')
     os.makedirs(workdir, exist_ok=True)
@@ -88,9 +90,23 @@ def run_real_session(scenario, timeout_s=60.0):
         else:
             raise Inconclusive(f'no free loopback port: {last!r}')
 
+        fns = client_fns('127.0.0.1', port) if client_fns is not None else None
+
         def client(seat):
             team = scenario['teams'][seat % 2]
             deadline = time.time() + 10
+            while fns is not None:
+                try:
+                    fns[seat]()
+                    return
+                except ConnectionRefusedError as e:      # raised by connect(): nothing was sent yet, try again
+                    if time.time() > deadline or done.is_set():
+                        res.client_exc[seat] = e
+                        return
+                    time.sleep(0.01)
+                except BaseException as e:  # noqa
+                    res.client_exc[seat] = e
+                    return
             while True:
                 sock = socket.socket(socket.AF_INET, socket.SOCK_STREAM)
                 try:
